@@ -1,2 +1,61 @@
+import RsomeV.Props.AtomsSoc
+import RsomeV.Props.AtomsExp
+import RsomeV.Gen.Atoms
+import RsomeV.Gen.Dispatch
+
+/-! # C06 — every accepted constraint and the objective are enforced as written
+
+Per-atom soundness theorems live in `RsomeV/Props/AtomsSoc.lean` (A, M, I, E, S, Q, rsocone) and
+`RsomeV/Props/AtomsExp.lean` (X, L, P, F, perspective X/L, KL); this file adds the routing theorem over the
+tables extracted from the source on every run. -/
+
 namespace RsomeV.C06
+open RsomeV.Gen
+
+/-- first matching route of an `if … xtype in '<letters>' … else` chain -/
+def route (rs : List (List Char × String)) (x : Char) : Option String :=
+  (rs.find? fun r => r.1.contains x || r.1 == ['*']).map (·.2)
+
+/-- does a consumer loop of layer `L` that iterates over list `t` have a branch for xtype `x`? -/
+def handledIn (L : Layer) (t : String) (x : Char) : Bool :=
+  L.loops.any fun l => l.1.contains t && l.2.contains x
+
+/-- constraint position: `st()` of the front-end layer routes by xtype, delegating with `super().st` to the
+parent layers; the list finally chosen must be consumed, in that layer's `do_math`, by a loop with a branch
+for the xtype.  `ls` lists the layers front-end first. -/
+def constrHandled : List Layer → Char → Bool
+  | [], _ => false
+  | L :: rest, x =>
+    match route L.st x with
+    | some "super" => constrHandled rest x
+    | some "raise" => false
+    | some t => handledIn L t x
+    | none => false
+
+/-- objective position: every layer's `do_math` builds the epigraph constraint `vars[0] - sign·obj ≥ 0` and
+routes it by xtype; it is enforced if some layer routes it to a list one of its loops handles. -/
+def objHandled (ls : List Layer) (x : Char) : Bool :=
+  ls.any fun L => match route L.obj x with
+    | some t => handledIn L t x
+    | none => false
+
+/-- **`dispatch_total`** ("never silently dropped"): for every atom the constructors in `rsome/lp.py` can
+produce (table `Gen.atomTable`, regenerated from the source on every run), both in constraint position and
+in objective position the xtype is routed to a list that a consumer loop of the same `do_math` has a branch
+for — in the routing tables extracted from `lp/socp/gcp.Model.st` and `do_math` on every run. -/
+theorem dispatch_total :
+    ∀ e ∈ atomTable, constrHandled layers.reverse e.xtype = true ∧ objHandled layers e.xtype = true := by
+  decide
+
+/-- the extraction found the three layers, in inheritance order -/
+theorem layers_found : layers.map (·.name) = ["lp", "socp", "gcp"] := by decide
+
+/-- before the repair of defect F6 the objective route of the gcp layer was `XLPF`: the p-norm atom `'N'`
+(exponential-cone method) then had no handled route in objective position. -/
+theorem legacy_N_objective_dropped :
+    let legacy : List Layer := layers.map fun L =>
+      if L.name = "gcp" then { L with obj := [(['X', 'L', 'P', 'F'], "more_others"), (['O', 'D'], "more_det")] } else L
+    objHandled legacy 'N' = false ∧ objHandled layers 'N' = true := by
+  decide
+
 end RsomeV.C06
